@@ -355,8 +355,59 @@ Definition ddlog_labels (e : ddlog) : labels :=
   dl_tags e ++ filter nonempty_label
     [("ddsource", opt_str (dl_source e)); ("service", opt_str (dl_service e)); ("hostname", opt_str (dl_host e));
      ("source_type", opt_str (dl_stype e)); ("type", "datadog")]%string.
-Definition calls_ddlog (body : list ddlog) : list call :=
-  map (fun e => K (ddlog_labels e) [wrap64 (dl_ts e * 1000000)] [dl_msg e] [0%N] [TYPE_LOG]) body.
+(* time.Now(): the decoder reads the clock once per entry; ck_nows are the readings (UnixNano) in the order they are taken,
+   ck_lo / ck_hi the clock just before the parser was started and just after its channel was closed. An entry without a
+   timestamp of its own (0) is stamped with the reading taken for it. *)
+Record clock := CK { ck_lo : Z; ck_hi : Z; ck_nows : list Z }.
+Fixpoint clocked {A} (nows : list Z) (l : list A) : list (Z * A) :=
+  match l with
+  | [] => []
+  | x :: r => (hd 0 nows, x) :: clocked (tl nows) r
+  end.
+Definition clock_okb (ck : clock) : bool := forallb (fun t => (ck_lo ck <=? t) && (t <=? ck_hi ck)) (ck_nows ck).
+(*  t := time.Now(); if d.TsMs != 0 { t = time.Unix(d.TsMs/1000, d.TsMs%1000*1000000) }; t.UnixNano() *)
+Definition ddlog_ts (now : Z) (e : ddlog) : Z := if dl_ts e =? 0 then now else wrap64 (dl_ts e * 1000000).
+Definition calls_ddlog (ck : clock) (body : list ddlog) : list call :=
+  map (fun p => K (ddlog_labels (snd p)) [ddlog_ts (fst p) (snd p)] [dl_msg (snd p)] [0%N] [TYPE_LOG]) (clocked (ck_nows ck) body).
+
+(* ---------------------------------------------------------------- Datadog logs sent by Cloudflare: datadogCFJsonUnmarshal.go
+   one JSON object per line; the row's text is the line itself; labels: the non-empty ones of eight fixed fields;
+   cf_ts: d.TsNs after the line was read (EventTimestampMs * 1000000 or When; 0 = none: the clock) *)
+Record cfline := CF { cf_text : string; cf_script : string; cf_outcome : string; cf_event : string; cf_ts : Z;
+                      cf_actres : option bool; cf_acttype : string; cf_actor : string; cf_restype : string }.
+Definition cf_labels (ddsource : string) (l : cfline) : labels :=
+  filter nonempty_label
+    [("ddsource", ddsource); ("ScriptName", cf_script l); ("Outcome", cf_outcome l); ("EventType", cf_event l);
+     ("ActionResult", match cf_actres l with Some true => "true" | Some false => "false" | None => "" end);
+     ("ActionType", cf_acttype l); ("ActorType", cf_actor l); ("ResourceType", cf_restype l)]%string.
+(* t := time.Now(); if d.TsNs != 0 { t = time.Unix(d.TsNs/1000000000, d.TsNs%1000000000) }; t.UnixNano() *)
+Definition cf_time (now : Z) (l : cfline) : Z := if cf_ts l =? 0 then now else cf_ts l.
+Definition calls_cf (ddsource : string) (ck : clock) (body : list cfline) : list call :=
+  map (fun p => K (cf_labels ddsource (snd p)) [cf_time (fst p) (snd p)] [cf_text (snd p)] [0%N] [TYPE_LOG]) (clocked (ck_nows ck) body).
+
+(* ---------------------------------------------------------------- Elasticsearch bulk: elasticUnmarshal.go elasticBulkDec
+   one JSON object per line. A line whose first key among delete / update / index / create is delete or update empties
+   e.labels (EsClear); index or create rebuilds them from the action object (EsSet: ("type","elastic"), ("_index",
+   target) when the route has one, then the string members of the action object except type and, with a target, _index);
+   an empty line does nothing (EsBlank); any other line (EsDoc) is handed on with the labels in force and the clock as
+   timestamp unless there are none. *)
+Inductive eskind := EsClear | EsSet (l : labels) | EsDoc | EsBlank.
+Record esline := EL { el_text : string; el_kind : eskind }.
+Fixpoint es_lines (lbls : labels) (nows : list Z) (body : list esline) : list call :=
+  match body with
+  | [] => []
+  | l :: r =>
+    match el_kind l with
+    | EsClear => es_lines [] nows r
+    | EsSet l' => es_lines l' nows r
+    | EsBlank => es_lines lbls nows r
+    | EsDoc => match lbls with
+               | [] => es_lines lbls nows r
+               | _ => K lbls [hd 0 nows] [el_text l] [0%N] [TYPE_LOG] :: es_lines lbls (tl nows) r
+               end
+    end
+  end.
+Definition calls_es (ck : clock) (body : list esline) : list call := es_lines [] (ck_nows ck) body.
 
 (* ---------------------------------------------------------------- Datadog metrics: datadogMetricsJsonUnmarshal.go *)
 Record ddseries := DS { dm_metric : option string; dm_resources : list labels; dm_points : list (Z * N) }.  (* (s, bits) *)
@@ -416,13 +467,15 @@ Definition calls_otlp (body : list oreslog) : list call :=
 (* ---------------------------------------------------------------- the seven parsers *)
 Inductive body :=
 | BLoki (l : list (list lmember)) | BLokiPb (l : list lstream) | BPrw (l : list pseries)
-| BInflux (precision : Z) (l : list iline) | BDDLog (l : list ddlog) | BDDMet (l : list ddseries)
-| BOtlp (l : list oreslog).
+| BInflux (precision : Z) (l : list iline) | BDDLog (ck : clock) (l : list ddlog) | BDDMet (l : list ddseries)
+| BOtlp (l : list oreslog)
+| BCf (ddsource : string) (ck : clock) (l : list cfline) | BEs (ck : clock) (l : list esline).
 
 Definition calls_of (flush_limit : N) (b : body) : list call :=
   match b with
   | BLoki l => calls_loki_json l | BLokiPb l => calls_loki_pb l | BPrw l => calls_prw flush_limit l
-  | BInflux p l => calls_influx p l | BDDLog l => calls_ddlog l | BDDMet l => calls_ddmet l | BOtlp l => calls_otlp l
+  | BInflux p l => calls_influx p l | BDDLog ck l => calls_ddlog ck l | BDDMet l => calls_ddmet l | BOtlp l => calls_otlp l
+  | BCf src ck l => calls_cf src ck l | BEs ck l => calls_es ck l
   end.
 
 Section DECODE.
@@ -504,8 +557,29 @@ Definition influx_line_entries (precision : Z) (l : iline) : list entry :=
                                end) (il_fields l)
   end.
 Definition entries_influx (precision : Z) (body : list iline) : list entry := flat_map (influx_line_entries precision) body.
-Definition entries_ddlog (body : list ddlog) : list entry :=
-  map (fun e => E (ddlog_labels e) (wrap64 (dl_ts e * 1000000)) (dl_msg e) 0%N TYPE_LOG) body.
+(* an entry with a timestamp of its own keeps it; one without is stamped with the clock reading taken for it *)
+Definition entries_ddlog (ck : clock) (body : list ddlog) : list entry :=
+  map (fun p => E (ddlog_labels (snd p)) (ddlog_ts (fst p) (snd p)) (dl_msg (snd p)) 0%N TYPE_LOG) (clocked (ck_nows ck) body).
+Definition entries_cf (ddsource : string) (ck : clock) (body : list cfline) : list entry :=
+  map (fun p => E (cf_labels ddsource (snd p)) (cf_time (fst p) (snd p)) (cf_text (snd p)) 0%N TYPE_LOG) (clocked (ck_nows ck) body).
+(* Elasticsearch bulk, stated by position: the labels in force at a line are those of the LAST action line before it
+   (none at the start, none behind a delete / update); the entries are the document lines with labels in force, each
+   with the whole line as its text *)
+Definition es_action (l : esline) : bool := match el_kind l with EsClear | EsSet _ => true | _ => false end.
+Fixpoint last_action (before : list esline) (acc : labels) : labels :=
+  match before with
+  | [] => acc
+  | l :: r => last_action r (match el_kind l with EsClear => [] | EsSet l' => l' | _ => acc end)
+  end.
+Definition es_is_entry (before : list esline) (l : esline) : bool :=
+  match el_kind l with EsDoc => negb (match last_action before [] with [] => true | _ => false end) | _ => false end.
+Fixpoint es_entry_lines (before : list esline) (body : list esline) : list (labels * string) :=
+  match body with
+  | [] => []
+  | l :: r => (if es_is_entry before l then [(last_action before [], el_text l)] else []) ++ es_entry_lines (before ++ [l]) r
+  end.
+Definition entries_es (ck : clock) (body : list esline) : list entry :=
+  map (fun p => E (fst (snd p)) (fst p) (snd (snd p)) 0%N TYPE_LOG) (clocked (ck_nows ck) (es_entry_lines [] body)).
 Definition entries_ddmet (body : list ddseries) : list entry :=
   flat_map (fun s => map (fun p => E (ddseries_labels s) (wrap64 (fst p * 1000000000)) EmptyString (snd p) TYPE_METRIC)
                          (dm_points s)) body.
@@ -518,7 +592,8 @@ Definition entries_otlp (body : list oreslog) : list entry :=
 Definition entries_of (b : body) : list entry :=
   match b with
   | BLoki l => entries_loki_json l | BLokiPb l => entries_loki_pb l | BPrw l => entries_prw l
-  | BInflux p l => entries_influx p l | BDDLog l => entries_ddlog l | BDDMet l => entries_ddmet l | BOtlp l => entries_otlp l
+  | BInflux p l => entries_influx p l | BDDLog ck l => entries_ddlog ck l | BDDMet l => entries_ddmet l | BOtlp l => entries_otlp l
+  | BCf src ck l => entries_cf src ck l | BEs ck l => entries_es ck l
   end.
 
 (* rows of a chunk: the six columns zipped; a chunk is rectangular when the columns have one length *)
@@ -647,6 +722,11 @@ Definition model_groups (b : body) : list nat :=
 Definition spec_groups (b : body) : list nat :=
   match b with BInflux p l => map (fun ln => List.length (influx_line_entries p ln)) l | _ => [] end.
 
+(* the clock of a body whose decoder reads it *)
+Definition body_clock (b : body) : option clock :=
+  match b with BDDLog ck _ | BCf _ ck _ | BEs ck _ => Some ck | _ => None end.
+Definition body_clock_ok (b : body) : bool := match body_clock b with Some ck => clock_okb ck | None => true end.
+
 Definition rows_only (c : case) : bool := match c_cache c with CShared => true | _ => is_influx (c_body c) end.
 
 (* model output <> observed output *)
@@ -669,7 +749,7 @@ Definition spec_violation (c : case) : bool :=
   body_modelled (c_body c) &&
   negb (match c_err c with
         | ENone =>
-          tab_functional (c_tab c) && forallb chunk_rectb (c_obs c) &&
+          tab_functional (c_tab c) && forallb chunk_rectb (c_obs c) && body_clock_ok (c_body c) &&
           let want := rows_spec (tab_fp (c_tab c)) (c_ctx_ttl c) (entries_of (c_body c)) in
           if is_influx (c_body c) then grouped_perm_eqb (spec_groups (c_body c)) want (rows_of (c_obs c))
           else list_eqb row_eqb want (rows_of (c_obs c))
